@@ -153,3 +153,34 @@ func TestExhaustiveClaims(t *testing.T) {
 	}
 	t.Logf("set sizes: i32 %d, i64 %d, f32 %d, f64 %d, i8 %d", len(setI32), len(setI64), len(setF32), len(setF64), len(setI8))
 }
+
+// In-process run of all quick pair cases (debug aid).
+func TestPairsSmoke(t *testing.T) {
+	pairs := choosePairs(core.NewRng(1, 6), true)
+	first, second := map[string]bool{}, map[string]bool{}
+	for _, p := range pairs {
+		first[p.A], second[p.B] = true, true
+	}
+	if len(first) != len(wops.Table) || len(second) != len(wops.Table) {
+		t.Fatalf("positions: %d first, %d second of %d", len(first), len(second), len(wops.Table))
+	}
+	start := time.Now()
+	nf := 0
+	var ev int64
+	for lo := 0; lo < len(pairs); lo += 8 {
+		hi := min(lo+8, len(pairs))
+		r := child("op", core.J(opCase{Pairs: pairs[lo:hi], Hi: 128, Seed: 1})).(*caseResult)
+		if r.Err != "" {
+			t.Fatal(r.Err)
+		}
+		for _, v := range r.Evals {
+			ev += v
+		}
+		for _, f := range r.Findings {
+			if nf++; nf < 8 {
+				t.Errorf("%s: %s", f.Sig, f.Detail)
+			}
+		}
+	}
+	t.Logf("%d pair functions, %d evaluations, %d findings, %.1fs", len(pairs), ev, nf, time.Since(start).Seconds())
+}
